@@ -138,6 +138,7 @@ def dispatch (j : Json) : Except String Res := do
   | "webfinger" => webfingerOp j
   | "pubworld" => pubWorldOp j
   | "ui" => uiOp j
+  | "uistress" => uiStressOp j
   | "paging" => pagingOp j
   | "splice" => spliceOp j
   | "history" => historyOp j
